@@ -423,12 +423,44 @@ def duplicate_end_test_rule(F, rep):
     setters += [x for x in tir.walk(root) if x.get("k") == "Struct" and (x.get("path") or "").endswith("Quirks") and any(f["name"] == "double_game_end" and tir.pretty(f["e"]) != "false" for f in x["fields"])
                 and not any(id(x) == id(y) for s_ in setters for y in tir.walk(s_))]
     n = 0
+    # bindings of the first element of a slice pattern (`[code, ..]`)
+    first_ids = set()
+    for x in tir.walk(root):
+        if x.get("k") == "Match":
+            for a_ in x["arms"]:
+                p = a_["pat"]
+                while p.get("k") == "Ref":
+                    p = p["pat"]
+                if p.get("k") == "Slice" and p.get("before"):
+                    q = p["before"][0]
+                    while q.get("k") == "Ref":
+                        q = q["pat"]
+                    if q.get("k") == "Bind":
+                        first_ids.add(q.get("id"))
+
+    def mentions_first(e):
+        for y in tir.walk(e):
+            if y.get("k") == "Index" and tir.lit_int(y["index"]) == 0:
+                return True
+            if y.get("k") == "MethodCall" and y["method"] == "first" and not y.get("args"):
+                return True
+            if y.get("k") == "Path" and y.get("res") == "local" and y.get("id") in first_ids:
+                return True
+        return False
+
+    def mentions_code(e):
+        return any(y.get("k") == "Path" and (y.get("path") or "").endswith("Event::GameEnd") for y in tir.walk(e))
+
     for st in setters:
         conds = []
         child, a = st, par.get(id(st))
         while a is not None:
             if a.get("k") == "If" and (a.get("then") is child or any(y is child for y in tir.walk(a["then"]))) and not (a.get("else") is not None and any(y is child for y in tir.walk(a["else"]))):
                 conds.append(a["cond"])
+            if a.get("k") == "Match":
+                for arm in a["arms"]:
+                    if arm.get("guard") is not None and any(y is child for y in tir.walk(arm["body"])):
+                        conds.append(arm["guard"])
             child, a = a, par.get(id(a))
         atoms = []
         work = [env.resolve(strip(c)) for c in conds]
@@ -441,12 +473,10 @@ def duplicate_end_test_rule(F, rep):
         ok = False
         for c in atoms:
             if c.get("k") == "Binary" and c.get("op") == "Eq":
-                for x, y in ((strip(c["l"]), strip(c["r"])), (strip(c["r"]), strip(c["l"]))):
-                    yy = y
-                    while yy.get("k") == "Cast":
-                        yy = strip(yy["e"])
-                    if x.get("k") == "Index" and tir.lit_int(x["index"]) == 0 and (yy.get("path") or "").endswith("Event::GameEnd"):
-                        ok = True
+                if (mentions_first(c["l"]) and mentions_code(c["r"])) or (mentions_first(c["r"]) and mentions_code(c["l"])):
+                    ok = True
+            if c.get("k") == "MethodCall" and c["method"] == "starts_with" and mentions_code(c):
+                ok = True
         n += 1
         rep.ob("trailing.duplicate-end-code", ok, "io::slippi::de::read", "double_game_end", "the double_game_end quirk is set without testing that the trailing content starts with the Game End event code (conditions: %s)" % [tir.pretty(c)[:60] for c in atoms], tir.sp(st))
     rep.floor("double_game_end setters in read()", n, 1)
